@@ -67,6 +67,10 @@ class FlattenNestedLoopsPattern(RewritePattern):
                 for (lhs, rhs) in zip(inner_loop.results, outer_yield_op.operands)
             ):
                 return
+            if not all(arg.has_one_use() for arg in outer_body.args[1:]):
+                # The outer iteration arguments must only be forwarded to the inner
+                # loop, they do not exist in the flattened loop
+                return
         elif inner_loop.iter_args:
             return
 
